@@ -25,7 +25,7 @@ LEVEL_NOTE = (
     "Trusted: numpy/scipy dense linear algebra, sympy, vlib/fock.py for the operator mode. KPM is checked against "
     "50 x (bandwidth x requested atol) - a weak oracle by nature. Bounds: n <= 10, blocks <= 3 vectors, <= 3 modes."
 )
-TECHNIQUE = "property-based testing (Hypothesis), residual oracle per solver (dense / exact / Fock-matrix)"
+TECHNIQUE = "property-based testing (Hypothesis), residual oracle per solver (dense / exact / Fock-matrix) + coverage-guided fuzzing stage (atheris/libFuzzer driving the same strategy and oracle)"
 BUDGET = {"quick": 2400, "thorough": 60000}
 FUZZ = {"quick": 3200, "thorough": 160000}  # executions of the coverage-guided stage (vlib/fuzz.py)
 RULE = (
